@@ -160,10 +160,9 @@ def magnitude_variants(rng, inst):
     out.append(t)
     t = dict(inst)
     i = rng.randrange(len(inst["b"]))
-    # row magnitudes up to 1e9.  (The library warns above 1e10; between 1e9 and 1e10 solve_lp's absolute pivot tolerance 1e-10 already
-    # gives wrong optima - reported as finding F4, witness in corpus/C04/observations/lp_row_scale_2e9.json - so that band is not drawn.)
+    # row magnitudes up to the library's own "large coefficients" warning threshold 1e10 (solve_lp equilibrates rows since 96ecc58)
     amax = max([abs(v) for v in inst["A"][i]] + [1])
-    k = rng.choice([k for k in [2**10, 2**20, 10**6, 10**8, 2**28] if amax * k <= 10**9] or [2**10])
+    k = rng.choice([k for k in [2**10, 2**20, 10**6, 10**8, 2**28, 2**31] if amax * k < 10**10] or [2**10])
     t["A"] = [list(r) for r in inst["A"]]
     t["b"] = list(inst["b"])
     t["A"][i] = [v * k for v in t["A"][i]]
